@@ -55,7 +55,7 @@ class PackageLoader(BaseLoader):
 
         # Don't build a path that escapes package/package_path.
         # Does ".." appear in template_name?
-        if os.path.pardir in template_path.parts:
+        if template_path.is_absolute() or os.path.pardir in template_path.parts:
             raise TemplateNotFoundError(template_name)
 
         # Add suffix self.ext if template name does not have a suffix.
